@@ -96,8 +96,8 @@ func TestCheck(t *testing.T) {
 		return
 	}
 
-	nVirtual := r.Pick(500, 10000)
-	nNaive := r.Pick(90, 1500)
+	nVirtual := r.Pick(500, 8000)
+	nNaive := r.Pick(90, 1200)
 	workers := 6
 	var wg sync.WaitGroup
 	next := make(chan int)
